@@ -126,6 +126,11 @@ func rewrite(t *ir.Term, st *ir.State) *ir.Term {
 			}
 		}
 	case "slice":
+		if n.Args[2].Aux != "_" {
+			if linEqual(n.Args[2], rewrite(&ir.Term{Op: "len", Args: []*ir.Term{n.Args[0]}}, st)) {
+				n.Args[2] = &ir.Term{Op: "const", Aux: "_"}
+			}
+		}
 		x := n.Args[0]
 		if x.Op == "append" && n.Args[2].Aux == "_" && n.Args[3].Aux == "_" {
 			if lo, isK := n.Args[1].IntConst(); isK {
@@ -308,23 +313,71 @@ func runC19(c *core.Ctx) {
 		} else {
 			c.Undecided("law", sh+": Length(Cons(x,s)) = Length(s)+1", ops["Length"].Pos(), "Length could not be evaluated")
 		}
-		// IsEmpty(s) = (Length(s) == 0)
-		if r := on("IsEmpty", nil, nil, "sym"); r != nil && lenS != nil {
+		// IsEmpty(s) = (Length(s) == 0): IsEmpty is the term L == 0, or a decision tree on it returning constants
+		if lenS != nil {
 			l2 := substParam(lenS, ops["Length"].Params[1].Name(), &ir.Term{Op: "param", Aux: ops["IsEmpty"].Params[1].Name()})
-			ok := r.Op == "bin" && r.Aux == "==" && len(r.Args) == 2
-			if ok {
-				a, b := r.Args[0], r.Args[1]
+			isLenZero := func(t *ir.Term) bool {
+				if t.Op != "bin" || t.Aux != "==" || len(t.Args) != 2 {
+					return false
+				}
+				a, b := t.Args[0], t.Args[1]
 				z, isZ := a.IntConst()
 				other := b
 				if !isZ {
 					z, isZ = b.IntConst()
 					other = a
 				}
-				ok = isZ && z == 0 && linEqual(other, l2)
+				return isZ && z == 0 && linEqual(other, l2)
 			}
-			c.Check(ok, "law", sh+": IsEmpty(s) = (Length(s) == 0)", ops["IsEmpty"].Pos(), short(r), "IsEmpty(s) is %s, expected Length(s) == 0 with Length(s) = %s", short(r), short(l2))
+			an := c.Analyze(ops["IsEmpty"])
+			ok := len(an.Problems) == 0 && len(an.Headers) == 0
+			why := "IsEmpty could not be modelled"
+			sawT, sawF := false, false
+			for _, p := range an.AllPaths() {
+				if !ok {
+					break
+				}
+				if p.Exit != ir.ExitReturn || len(p.Results) != 1 {
+					ok, why = false, "IsEmpty can panic"
+					break
+				}
+				r := rewrite(p.Results[0], p.End)
+				if isLenZero(r) {
+					sawT, sawF = true, true
+					continue
+				}
+				truth := 0
+				for _, st := range p.Events(ir.KBranch) {
+					at := rewrite(st.Atom, p.End)
+					switch {
+					case isLenZero(at):
+						truth = polInt(st.Pol)
+					case at.Op == "bin" && at.Aux == "<" && len(at.Args) == 2:
+						// 0 < L  is the negation
+						if z, isZ := at.Args[0].IntConst(); isZ && z == 0 && linEqual(at.Args[1], l2) {
+							truth = -polInt(st.Pol)
+						}
+					}
+				}
+				if !(r.IsConst() && (r.Aux == "true" || r.Aux == "false")) || truth == 0 {
+					ok, why = false, "IsEmpty returns "+short(r)+" without deciding Length(s) == 0"
+					break
+				}
+				if (r.Aux == "true") != (truth > 0) {
+					ok, why = false, fmt.Sprintf("IsEmpty returns %s when Length(s) == 0 is %v", r.Aux, truth > 0)
+				}
+				if truth > 0 {
+					sawT = true
+				} else {
+					sawF = true
+				}
+			}
+			if ok && !(sawT && sawF) {
+				ok, why = false, "IsEmpty does not cover both cases"
+			}
+			c.Check(ok, "law", sh+": IsEmpty(s) = (Length(s) == 0)", ops["IsEmpty"].Pos(), "decides Length(s) == 0", "%s (Length(s) = %s)", why, short(l2))
 		} else {
-			c.Undecided("law", sh+": IsEmpty(s) = (Length(s) == 0)", ops["IsEmpty"].Pos(), "IsEmpty could not be evaluated")
+			c.Undecided("law", sh+": IsEmpty(s) = (Length(s) == 0)", ops["IsEmpty"].Pos(), "Length could not be evaluated")
 		}
 		// Length(New(xs...)) = len(xs)
 		newLen(c, sh, ops)
@@ -373,6 +426,12 @@ func newLen(c *core.Ctx, sh string, ops map[string]*ssa.Function) {
 			continue
 		}
 		got := rewrite(r.res, r.end)
+		// an early return for no arguments: the path established len(xs) == 0
+		if polarity(p, &ir.Term{Op: "bin", Aux: "==", Args: sorted2(ir.Const("0"), &ir.Term{Op: "len", Args: []*ir.Term{xs}})}) > 0 {
+			if z, isZ := got.IntConst(); isZ && z == 0 || got.Op == "const" && strings.HasPrefix(got.Aux, "zero") {
+				continue
+			}
+		}
 		if !linEqual(got, &ir.Term{Op: "len", Args: []*ir.Term{xs}}) {
 			ok, why = false, fmt.Sprintf("Length(New(xs...)) normalises to %s, expected len(xs)", short(got))
 		}
@@ -387,63 +446,173 @@ func listNewOrder(c *core.Ctx) {
 		c.Undecided("list-new-order", name, 0, "anchor not found")
 		return
 	}
-	an := c.Analyze(fn)
+	an := c.AnalyzeLoops(fn)
 	if len(an.Problems) > 0 || len(an.Headers) != 1 {
-		c.Undecided("list-new-order", name, fn.Pos(), "expected one loop")
+		c.Undecided("list-new-order", name, fn.Pos(), "expected one loop (found %d; %s)", len(an.Headers), strings.Join(an.Problems, "; "))
 		return
 	}
 	h := an.Headers[0]
 	xs := &ir.Term{Op: "param", Aux: fn.Params[1].Name()}
-	var idx, tail *ssa.Phi
+	lenXs := &ir.Term{Op: "len", Args: []*ir.Term{xs}}
+	// the descending index: an integer loop-carried register
+	var idx *ssa.Phi
 	for _, in := range h.Instrs {
 		if phi, ok := in.(*ssa.Phi); ok {
-			if phi.Type().String() == "int" {
+			if bt, isB := phi.Type().Underlying().(*types.Basic); isB && bt.Info()&types.IsInteger != 0 {
 				idx = phi
-			} else {
-				tail = phi
 			}
 		}
 	}
-	ok := idx != nil && tail != nil
-	why := "no index / list accumulator"
-	if ok {
-		iSym, tSym := an.Start[h].Reg(idx), an.Start[h].Reg(tail)
-		for _, p := range an.Segs[nil] {
-			if !linEqual(p.PhiOut[idx], &ir.Term{Op: "bin", Aux: "-", Args: []*ir.Term{{Op: "len", Args: []*ir.Term{xs}}, ir.Const("1")}}) || !p.PhiOut[tail].IsNil() {
-				ok, why = false, "the loop must start at i = len(xs)-1 with an empty list"
+	if idx == nil {
+		c.Fail("list-new-order", name, fn.Pos(), "no integer loop index")
+		return
+	}
+	iSym := an.Start[h].Reg(idx)
+	ok := true
+	why := ""
+	var d int64
+	dSet := false
+	var accNow func(p *ir.Path) *ir.Term // the accumulated list as seen at the start of a path from h
+	nIter := 0
+	for _, p := range an.Segs[h] {
+		if p.To != h {
+			continue
+		}
+		nIter++
+		// the new cell: a fresh allocation whose literal holds xs[J] and the previous list
+		var cell, vTail *ir.Term
+		nCells := 0
+		p.End.EachMem(func(addr, val *ir.Term) {
+			if addr.Op != "alloc" || !freshOnPath(p, &ir.Term{Op: "faddr", Aux: "", Args: []*ir.Term{addr}}) && !pathAllocates(p, addr) {
+				return
+			}
+			lit := p.End.MemAt(addr)
+			if lit == nil || lit.Op != "lit" {
+				return
+			}
+			fs := ir.LitFields(lit)
+			if len(fs) != 2 {
+				return
+			}
+			for i := 0; i < 2; i++ {
+				hd, tl := fs[i].Args[0], fs[1-i].Args[0]
+				if hd.Op == "load" && hd.Args[0].Op == "iaddr" && ir.Same(hd.Args[0].Args[0], xs) {
+					if dd, isK := plusConst(hd.Args[0].Args[1], iSym); isK {
+						if dSet && dd != d {
+							ok, why = false, "different iterations index the arguments differently"
+						}
+						d, dSet = dd, true
+						cell, vTail = addr, tl
+						nCells++
+					}
+				}
+			}
+		})
+		if nCells != 1 || cell == nil {
+			ok, why = false, fmt.Sprintf("an iteration must build exactly one new cell holding xs[index] (found %d)", nCells)
+			continue
+		}
+		// the previous list and its successor
+		var next *ir.Term
+		switch {
+		case vTail.Op == "phi":
+			if phi, isPhi := vTail.Src.(*ssa.Phi); isPhi && phi.Block() == h {
+				next = p.PhiOut[phi]
+				ph := phi
+				accNow = func(q *ir.Path) *ir.Term { return an.Start[h].Reg(ph) }
+			}
+		case vTail.Op == "load" && len(vTail.Args) == 1:
+			addr := vTail.Args[0]
+			next = p.End.MemAt(addr)
+			accNow = func(q *ir.Path) *ir.Term { return an.Start[h].MemAt(addr) }
+		}
+		if next == nil || !ir.Same(next, cell) {
+			ok, why = false, "the new cell must point to the list built so far and become the new head of it; found tail = "+short(vTail)+", list' = "+short(next)
+		}
+		if dd, isK := plusConst(p.PhiOut[idx], iSym); !isK || dd != -1 {
+			ok, why = false, "the index must decrease by exactly one per iteration"
+		}
+		// continue condition: J = I + d >= 0
+		good := false
+		for _, st := range p.Events(ir.KBranch) {
+			at := st.Atom
+			if at.Op != "bin" || at.Aux != "<" {
+				continue
+			}
+			if ir.Same(at.Args[0], iSym) {
+				if cst, isK := at.Args[1].IntConst(); isK && !st.Pol && cst+d == 0 {
+					good = true // I >= c  and  c + d == 0
+				}
+			}
+			if ir.Same(at.Args[1], iSym) {
+				if cst, isK := at.Args[0].IntConst(); isK && st.Pol && cst+1+d == 0 {
+					good = true // I > c
+				}
 			}
 		}
-		for _, p := range an.Segs[h] {
-			neg := polarity(p, &ir.Term{Op: "bin", Aux: "<", Args: []*ir.Term{iSym, ir.Const("0")}})
-			switch {
-			case neg == 0:
-				ok, why = false, "the loop condition is not i >= 0"
-			case neg > 0:
-				// exit: {len: len(xs), list: tail}
-				r := p.Results[0]
-				if p.Exit != ir.ExitReturn || !(r.Op == "lit" && ir.Same(fieldOf2(r, "list"), tSym) && linEqual(fieldOf2(r, "len"), &ir.Term{Op: "len", Args: []*ir.Term{xs}})) {
-					ok, why = false, "the result is not {len: len(xs), list: accumulated list}"
-				}
-			default:
-				// iteration: tail' = &{head: xs[i], tail: tail}; i' = i-1
-				nt := p.PhiOut[tail]
-				lit := p.End.MemAt(nt)
-				good := p.To == h && nt != nil && nt.Op == "alloc" && lit != nil && lit.Op == "lit" && ir.Same(fieldOf2(lit, "tail"), tSym)
-				if good {
-					hd := fieldOf2(lit, "head")
-					good = hd != nil && hd.Op == "load" && hd.Args[0].Op == "iaddr" && ir.Same(hd.Args[0].Args[0], xs) && ir.Same(hd.Args[0].Args[1], iSym)
-				}
-				if good {
-					d, isK := plusConst(p.PhiOut[idx], iSym)
-					good = isK && d == -1
-				}
-				if !good {
-					ok, why = false, "each iteration must prepend xs[i] to the accumulated list and decrement i by one"
-				}
+		if !good {
+			ok, why = false, "the loop does not run exactly while the element index is >= 0 (an element would be skipped or an index fall below zero)"
+		}
+	}
+	if nIter == 0 {
+		ok, why = false, "no iteration path"
+	}
+	// start: index such that the first element visited is xs[len-1]; empty accumulated list
+	for _, p := range an.Segs[nil] {
+		if p.To == h {
+			first := &ir.Term{Op: "bin", Aux: "+", Args: []*ir.Term{p.PhiOut[idx], ir.Const(fmt.Sprint(d))}}
+			want := &ir.Term{Op: "bin", Aux: "-", Args: []*ir.Term{lenXs, ir.Const("1")}}
+			if !linEqual(first, want) {
+				ok, why = false, "the first element prepended is xs["+short(first)+"], expected xs[len(xs)-1]"
+			}
+		} else if p.Exit == ir.ExitReturn {
+			// an early return is fine for no arguments only
+			if polarity(p, &ir.Term{Op: "bin", Aux: "==", Args: sorted2(ir.Const("0"), lenXs)}) <= 0 {
+				ok, why = false, "New returns before the loop for a non-empty argument list"
 			}
 		}
 	}
-	c.Check(ok, "list-new-order", name, fn.Pos(), "for i := len-1; i >= 0; i-- { list = &{xs[i], list} }", "%s", why)
+	// exit: the descriptor holds the accumulated list and len(xs)
+	for _, p := range an.Segs[h] {
+		if p.Exit != ir.ExitReturn {
+			continue
+		}
+		r := p.Results[0]
+		if r.Op == "alloc" {
+			r = p.End.MemAt(r)
+		}
+		hasLen, hasList := false, false
+		if r != nil && r.Op == "lit" && accNow != nil {
+			for _, kv := range ir.LitFields(r) {
+				if linEqual(kv.Args[0], lenXs) {
+					hasLen = true
+				}
+				if ir.Same(kv.Args[0], accNow(p)) {
+					hasList = true
+				}
+			}
+		}
+		if !hasLen || !hasList {
+			ok, why = false, "the result is not {length: len(xs), list: the list built}: "+short(r)
+		}
+	}
+	c.Check(ok, "list-new-order", name, fn.Pos(), "prepend xs[len-1] .. xs[0] in this order", "%s", why)
+}
+
+// pathAllocates: the cell addr is allocated on path p (its zero-initialising store is path-local).
+func pathAllocates(p *ir.Path, addr *ir.Term) bool {
+	for _, st := range p.Events(ir.KStore) {
+		if st.LocalStore {
+			root := st.A[0]
+			for root.Op == "faddr" || root.Op == "iaddr" {
+				root = root.Args[0]
+			}
+			if ir.Same(root, addr) {
+				return true
+			}
+		}
+	}
+	return false
 }
 
 func foldRule(c *core.Ctx) {
